@@ -105,9 +105,12 @@ class ResolvePortRefs(ElabPass):
             else:  # Add ultimate signal `Source`s to the group
                 group.add(conn)
 
-            # And recursively follow its connected ports
+            # And recursively follow its connected ports.
+            # Only Instances of `module` take part. References also record connections made to Instances
+            # which never joined it, such as the template consumed by `n * Instance`.
             for connected_port in pref._connected_ports:
-                follow(connected_port, group)
+                if connected_port.inst._parent_module is module:
+                    follow(connected_port, group)
 
         # Collect groups of connected `PortRef`s
         groups: List[List[Optional[Connectable]]] = list()
